@@ -47,7 +47,10 @@ pub enum Dev {
 fn case_space_variant(chain: &str, id: &str, src: &str, k: u8) -> (String, String, String) {
     let f = |x: &str| -> String {
         if k / 3 % 2 == 0 {
-            if x.is_empty() || x.to_uppercase() == x {
+            if x.to_lowercase() != x {
+                // a name with upper-case letters: its lower-case form (what a normalising implementation would store)
+                x.to_lowercase()
+            } else if x.is_empty() || x.to_uppercase() == x {
                 format!("{}X", x).to_lowercase() + "Y"
             } else {
                 x.to_uppercase()
@@ -207,10 +210,11 @@ impl Property for C16 {
             app = w.its.id.clone();
             cx.label("app_is_the_token_service");
         }
-        let chains = ["ethereum", "", "a"];
+        let chains = ["ethereum", "", "Avalanche-Fuji"];
         let ids = ["0xabc-1", "", "b"];
         let srcs = ["0xsender", "", "c"];
         let chain = if case.its_app { crate::itsw::HUB_CHAIN } else { chains[case.chain as usize % 3] };
+        // (one chain name has upper-case letters; the case-variant deviation turns it to lower case)
         let id = ids[case.id as usize % 3];
         let src = if case.its_app { "hub-address" } else { srcs[case.src as usize % 3] };
         let payload = match its_payload {
